@@ -139,6 +139,46 @@ CHECKS = {
         "ISO C and compared with glibc on every generated value.",
    technique="Coq proof over Gallina model with explicit bounded buffers + regenerated option table + guard-page differential + independent grammar oracle",
    design="3/C20"),
+ "C10": dict(
+   text="Machine-checked proof (Coq). Sequential: over a model of the thread's heaps, their 75 page queues, page->heap pointers, default/backing heap "
+        "and descriptors, invariant A.2 is inductive for every operation and history; mi_heap_delete of a compatible heap keeps the live-block "
+        "multiset except the descriptor and re-attributes exactly that heap's blocks to the backing heap, each still freeable; mi_heap_destroy removes "
+        "exactly the heap's blocks and descriptor with an exact frame for all other pages and heaps; contains_block / check_owned agree and equal a "
+        "ghost home heap; the default falls back to the backing heap; descriptors are live backing-heap blocks; the page walk reaches every queue "
+        "incl. FULL once. Concurrent (C10conc, on the cross-thread free interleaving model): no thread ever pushes on, or reads the keys of, a heap "
+        "that has been freed while mi_heap_delete runs concurrently with remote frees. Tie: API traces with several heaps (shadow attribution, "
+        "content, overlap, default fallback), exact replay of the dumped page queues around every delete/destroy against the model, and the "
+        "scheduler harness (mode heap: mi_heap_delete / mi_heap_collect while other virtual threads free into the heap).",
+   note="Deleting a heap that is incompatible with the backing heap (arena-bound) is modelled as the code does it (pages become heap-less); "
+        "freeability there is REFUTED (C10_delete_incompatible_refuted; known finding impl:heap-delete-incompatible, corpus/C10). Block contents and "
+        "segments are other layers. The concurrent theorems are about the model of Model/TFree.v; its tie to the code is the scheduler harness "
+        "oracle, not a step-lockstep replay.",
+   technique="Coq inductive invariants (heap queues; interleaving model) + exact queue-dump replay + shadow-oracle traces + deterministic scheduler",
+   design="3/C10"),
+ "C15": dict(
+   text="Machine-checked proof (Coq): the suitability invariant (every page of a heap lies in a segment whose memid is suitable for the heap's arena; "
+        "arena segments lie inside the arena area) is preserved by every hand-out path (span reuse, fresh segment, reclaim-on-free, try_reclaim, "
+        "reclaim_all, collect, thread exit, heap delete) for all histories with tag-0 heaps; corollaries bound_heap_inside_arena, "
+        "no_os_fallback_for_bound_heap, exclusive_stays_private, managed_region_bounds for all start/size. Partial in the heap tag: refuted for "
+        "mi_heap_new_ex tags (known finding impl:reclaim-by-tag-exclusive). The pre-repair reclaim_all is shown to break privacy (Example). Tie: exact "
+        "function records of mi_manage_os_memory_ex2 arithmetic and the suitability functions, and an address oracle on seeded real histories with "
+        "exclusive/shared arenas over misaligned regions, bound and unbound heaps, arena exhaustion, pthread exit, collects, reclaim-on-free.",
+   note="Sequential model; arena claim and span-queue order are oracles; claims inside bitmap fields rely on C14; blocks > 64 MiB from bound heaps "
+        "return NULL (C14 finding).",
+   technique="Coq invariant by induction over operations + exact function differential + address oracle on seeded real histories with thread exit",
+   design="3/C15"),
+ "C09": dict(
+   text="Machine-checked proof (Coq) on an interleaving model of abandonment/adoption (one transition per atomic access; unbounded threads, segments, "
+        "steps): the invariant is inductive; at most one thread owns or visits a segment (owned xor marked abandoned xor in exactly one visitor's "
+        "hand); adoption only within the sub-process; pages of abandoned segments are NEVER_DELAYED_FREE so remote frees go to the page list; "
+        "abandon/reclaim never write block memory. NAMED PARTIAL: 'a forced collect from quiescence leaves no dead abandoned segment' and the "
+        "abandoned_count accounting are stated (Proofs/AbandonOpen.v) and simulated, not proved. Tie: the scheduler harness runs the real allocator "
+        "in virtual threads that terminate through mi_thread_done with live blocks (reclaim-on-free on/off, arena and OS-list segments); survivors "
+        "verify the byte patterns and free them; at quiescence a forced collect must leave no abandoned segment and no block.",
+   note="The model-to-code tie is the implementation oracle under the deterministic scheduler (no step-lockstep); thread exit through the pthread key "
+        "destructor is covered by the pinned suite only; arena visit lock and os_list_count are not modelled.",
+   technique="Coq inductive invariant with ghost holder on a small-step model + deterministic-scheduler oracle on the real code",
+   design="3/C09"),
 }
 NOT_YET = {}
 def main():
